@@ -350,3 +350,170 @@ def _fn_at(m, line: int) -> str:
             if fn.lineno <= line <= getattr(fn, "end_lineno", fn.lineno):
                 best = f"{ci.name}.{fn.name}"
     return best
+
+
+# ---------------------------------------------------------------------------
+# rules added after the syntactic mutation campaign (tools_mutate.py)
+
+
+def _assigned_params(L, p) -> Set[str]:
+    """Parameters the procedure assigns (directly, by READ, or by passing them on to a callee that assigns them)."""
+    names = {x[0] for x in p.params}
+    out: Set[str] = set()
+    for s in L.all_stmts(p):
+        if s.kind in ("assign", "read") and s.target in names:
+            out.add(s.target)
+    return out
+
+
+@rule("L9", "RESULT-ARGUMENT: an argument bound to a parameter the callee assigns is a variable (BASIC09 passes expressions by value: an assigned result would be lost)", ["C14", "C20"], floor=30, default_props=["C14"])
+def l9(ctx: Ctx):
+    from .b09lib import LIB_REL, b09lib
+
+    L = b09lib(ctx)
+    assigned = {n: _assigned_params(L, p) for n, p in L.procs.items()}
+    # propagate through calls: passing a parameter on in a result position makes it assigned
+    changed = True
+    while changed:
+        changed = False
+        for n, p in L.procs.items():
+            names = [x[0] for x in p.params]
+            for s in L.all_stmts(p):
+                if s.kind == "run" and s.run_name in L.procs and len(s.run_args) == len(L.procs[s.run_name].params):
+                    for a, (pn, _, _) in zip(s.run_args, L.procs[s.run_name].params):
+                        if pn in assigned[s.run_name] and a.strip().lower() in names and a.strip().lower() not in assigned[n]:
+                            assigned[n].add(a.strip().lower())
+                            changed = True
+    for n, p in sorted(L.procs.items()):
+        for s in L.all_stmts(p):
+            if s.kind != "run" or s.run_name not in L.procs:
+                continue
+            callee = L.procs[s.run_name]
+            if len(s.run_args) != len(callee.params):
+                continue
+            bad = []
+            for a, (pn, _, _) in zip(s.run_args, callee.params):
+                if pn in assigned[s.run_name]:
+                    is_var = re.fullmatch(r"[A-Za-z_][\w$]*((\.[A-Za-z_]\w*)|(\([^()]*\)))*", a.strip()) is not None and not re.match(r"(?i)(fix|float|int|len|asc|val|land|lor|lnot|peek|addr|mid\$|left\$|right\$|chr\$|str\$)\(", a.strip())
+                    if not is_var:
+                        bad.append(f"`{a.strip()}` is passed for `{pn}`, which {callee.name} assigns")
+            # swapped-argument lint: a plain variable that carries the name of one of the callee's parameters
+            # sits in that parameter's position (callers that use other names say nothing)
+            pnames = [x[0] for x in callee.params]
+            for i_, a in enumerate(s.run_args):
+                an = a.strip().lower()
+                if an in pnames and pnames[i_] != an and pnames[i_] not in [x.strip().lower() for x in s.run_args]:
+                    bad.append(f"`{an}` is passed in the position of parameter `{pnames[i_]}` although {callee.name} has a parameter `{an}` (position {pnames.index(an) + 1})")
+            k = f"{n}->{s.run_name}@{_ord_run(L, p, s)}"
+            ctx.ob(k, not bad, "; ".join(bad) + (": the value computed by the callee is thrown away (or its parameter list no longer matches the callers)" if bad else ""), file=LIB_REL, line=s.line)
+    # OS-9 `syscall` takes exactly (request code, register block)
+    for n, p in sorted(L.procs.items()):
+        for s in L.all_stmts(p):
+            if s.kind == "run" and s.run_name.lower() == "syscall":
+                ok = len(s.run_args) == 2
+                ctx.ob(f"{n}->syscall@{_ord_run(L, p, s)}", ok, "" if ok else f"`{s.text.strip()}`: syscall takes the request code and the register block", file=LIB_REL, line=s.line)
+    # tool -> library: result parameters of function procedures are in the last position (where the temporary goes)
+    from .rules_l import functional_procedures
+
+    for name in sorted(functional_procedures(ctx)):
+        if name in L.procs and L.procs[name].params:
+            names = [x[0] for x in L.procs[name].params]
+            asg = assigned[name] & set(names)
+            if name in ("ecb_joystk",):
+                continue  # caches the four axis values in its middle parameters by design
+            ok = asg <= {names[-1]}
+            ctx.ob(
+                f"tool->{name}:result-last",
+                ok,
+                "" if ok else f"procedure {name} assigns its parameter(s) {sorted(asg - {names[-1]})}, but the tool passes its operands (expressions) in every position but the last: operand and result positions are swapped",
+                file=LIB_REL,
+                line=L.procs[name].line,
+                props=["C14", "C20"] if name in ("ecb_instr", "ecb_string", "ecb_read_filter") else ["C14"],
+            )
+
+
+def _ord_run(L, p, s) -> int:
+    k = 0
+    for x in L.all_stmts(p):
+        if x.kind == "run" and x.run_name == s.run_name:
+            k += 1
+            if x is s:
+                return k
+    return k
+
+
+@rule("A3", "LVALUE: the target of every assignment the parser builds is a variable or an array element", ["C02", "C07"], floor=5)
+def a3(ctx: Ctx):
+    from .rules_abs import rule_values
+
+    I = interp(ctx)
+    vals = rule_values(ctx)
+    for r in ("num_assign", "str_assign", "arr_assign", "str_arr_assign", "partial_str_assign", "partial_str_arr_assign"):
+        ctx.need(r in vals, r, "assignment rule not found")
+        for a in alts_of(vals[r]):
+            if isinstance(a, Obj) and a.cls == "BasicAssignment":
+                tgt = a.fields.get("_var")
+                cs = {c for c in I.classes_of(tgt)}
+                ok = bool(cs) and cs <= {"BasicVar", "BasicArrayRef"}
+                ctx.ob(r, ok, "" if ok else f"visit_{r} builds an assignment whose target can be {sorted(cs)}: target and value are exchanged", file=PARSER_REL, line=a.line)
+                val = a.fields.get("_exp")
+                vcs = I.classes_of(val)
+                okv = "Node" not in vcs and "const:str:''" not in vcs
+                ctx.ob(f"{r}:value", okv, "" if okv else f"visit_{r} stores {sorted(vcs)} as the assigned value", file=PARSER_REL, line=a.line)
+
+
+@rule("E9b", "BUILDER-FORM: each expression builder puts operator and operands where its class prints them (sign before operand, operator between operands)", ["C01"], floor=6)
+def e9b(ctx: Ctx):
+    from .rules_abs import _renderings, rule_values
+    from .rules_expr import infix_level
+
+    I = interp(ctx)
+    py = pyfacts(ctx)
+    p = peg(ctx)
+    vals = rule_values(ctx)
+
+    def forms(rule_name: str) -> Set[str]:
+        out: Set[str] = set()
+        for a in alts_of(vals[rule_name]):
+            if not isinstance(a, Obj):
+                continue
+            rm = py.resolve_method(a.cls, "basic09_text")
+            if rm is None:
+                continue
+            t = I.call_function(rm[1], [a, Const(0)], self_obj=a, owner=rm[0].name)
+            for alt in alts_of(t):
+                for parts in _renderings(alt, cap=16):
+                    s_ = ""
+                    for part in parts:
+                        if isinstance(part, str):
+                            s_ += part
+                        elif isinstance(part, Operand):
+                            s_ += "⟦e⟧"
+                        elif isinstance(part, Tmpl) and all(isinstance(x, (str, Operand)) for x in part.parts):
+                            s_ += "".join(x if isinstance(x, str) else "⟦e⟧" for x in part.parts)
+                        elif alts_of(part) and all(getattr(x, "lits", None) for x in alts_of(part)):
+                            s_ += "|".join(sorted({l for x in alts_of(part) for l in x.lits}))
+                        else:
+                            s_ += "⟦?⟧"
+                    out.add(s_)
+        return out
+
+    ctx.need("unop_exp" in vals, "unop_exp", "rule not found")
+    fs = forms("unop_exp")
+    ok = bool(fs) and all(re.fullmatch(r"(\+|-|\+\|-|-\|\+) ?\(?⟦e⟧\)?", f) for f in fs)
+    ctx.ob("unop_exp", ok, "" if ok else f"a signed operand is emitted as {sorted(fs)}: the sign does not precede its operand", file=PARSER_REL, line=1)
+    for rname in ("num_exp", "num_and_exp", "num_gtle_exp", "num_sum_exp", "num_prod_exp", "num_power_exp", "str_exp", "bool_or_exp", "bool_and_exp", "bool_bin_exp", "bool_str_exp"):
+        if rname not in vals:
+            continue
+        fs = forms(rname)
+        bad = []
+        for f in fs:
+            if "⟦?⟧" in f:
+                continue
+            if re.fullmatch(r"L(AND|OR)\(.*⟦e⟧.*, .*⟦e⟧.*\)", f):
+                continue
+            if re.fullmatch(r"[^⟦]*⟦e⟧.* (\S+) .*⟦e⟧[^⟧]*", f):
+                continue
+            bad.append(f)
+        if fs:
+            ctx.ob(rname, not bad, "" if not bad else f"`{rname}` builds an expression that is emitted as {bad[:2]}: operator and operands are not in `left op right` order", file=PARSER_REL, line=1)
